@@ -277,10 +277,18 @@ Proof.
 Qed.
 
 (* ---------- the central theorem (partial: the guard excludes F23) ---------- *)
+Lemma strip_idem i : strip (strip i) = strip i.
+Proof. induction i; try reflexivity. exact IHi2. Qed.
+
+Theorem history_independent prev n i :
+  model (IAfter prev n i) = model i /\ (forall o, spec (IAfter prev n i) o = spec i o).
+Proof. split; reflexivity. Qed.
+
 Theorem spec_model_partial i : wf i = true -> spec i (model i) = true.
 Proof.
-  destruct i as [red [u|] rt rm r | red r | red [u|] rt rm c st ss | red [u|] rt rm e d st ss dis];
-    cbn [wf spec model]; intros Hwf; try reflexivity.
+  unfold wf, spec, model. generalize (strip i). clear i. intros i.
+  destruct i as [red [u|] rt rm r | red r | red [u|] rt rm c st ss | red [u|] rt rm e d st ss dis | prev n i'];
+    cbn [wf_base spec_base model_base]; intros Hwf; try reflexivity; try discriminate Hwf.
   - apply url_spec_model, Hwf.
   - apply andb_true_iff in Hwf as [Hwf He]. apply andb_true_iff in Hwf as [Hs Hc].
     apply form_spec_model; [assumption | assumption | now apply negb_true_iff].
